@@ -286,8 +286,10 @@ def run(ctx):
             return ctx.coq_counts(txt, name)
         ctx.coq_counts_gated = gated
         tm.append(time.time())
-        fins = [corr_sbg(ctx, pool), corr_lookups(ctx, pool), cx.corr_extract(ctx, pool), cx.corr_pit_relabel(ctx, pool)]
+        fins = [corr_sbg(ctx, pool), corr_lookups(ctx, pool), cx.corr_extract(ctx, pool), cx.corr_pit_relabel(ctx, pool),
+                cx.corr_fixed(ctx, pool)]
         tm.append(time.time())
+        mon.monitor_corpus(ctx)
         monitor_sbg_float(ctx)
         mon.monitor_pi_valve_family(ctx)
         mon.monitor_t_outlet_witness(ctx)
